@@ -257,6 +257,7 @@ class Analyzer:
         self.events: Dict[Tuple[str, tuple], list] = {}
         self.ret_records: Dict[Tuple[str, tuple], list] = {}
         self.acc_records: Dict[Tuple[str, tuple], list] = {}
+        self.sub_records: Dict[Tuple[str, tuple], list] = {}
         self.passes = 0
         self._param_types_cache = {}
         self._methods_by_name: Dict[str, List[FuncInfo]] = {}
@@ -299,6 +300,7 @@ class Analyzer:
                 self.events[key] = run.events
                 self.ret_records[key] = run.ret_records
                 self.acc_records[key] = run.acc_records
+                self.sub_records[key] = run.sub_records
                 if s.signature() != oldsig:
                     changed = True
             if self._attr_changed:
@@ -420,6 +422,7 @@ class FuncRun:
         self.call_records: List[CallRecord] = []
         self.ret_records: list = []  # (node, AV) for each return/yield
         self.acc_records: list = []  # (stmt, value deps, control deps) for accumulating stores
+        self.sub_records: list = []  # (stmt, key deps, value deps, receiver origins) for `x[k] = v`
         self.loop_breaks: List[List[Optional[Env]]] = []
         self.loop_continues: List[List[Optional[Env]]] = []
         self.param_index = {p.name: p.index for p in f.params}
@@ -844,6 +847,7 @@ class FuncRun:
             k = self.ev(target.slice, env)
             self.store_into(recv, val, st, 'item assignment')
             self.acc_records.append((st, val.deps | k.deps, env.pdeps))
+            self.sub_records.append((st, k.deps, val.deps, recv.origins))
             self.taint_root(target.value, val.deps | k.deps, env)
         elif isinstance(target, ast.Starred):
             self.assign(target.value, val, env, st)
